@@ -71,7 +71,12 @@ def run(ctx):
                     b = f.read()
                 if a == b:
                     identical += 1
-                g = definitions(gen)
+                try:
+                    g = definitions(gen)
+                except SyntaxError as e:
+                    ctx.add_violation({'module': rel, 'name': None}, V('GENERATED_UNPARSABLE', {'module': rel, 'error': str(e)},
+                                                                       bucket='GENSYNTAX'))
+                    continue
                 try:
                     c = definitions(cur)
                 except SyntaxError as e:
